@@ -1002,8 +1002,68 @@ func (c *VC) loopCut(st *State, tg *target, ld *LoopDir, ord int, ef loopEffects
 	exit := st.clone()
 	exit.pc = mkAnd(st.pc, mkNot(cnd))
 	fr.targets = append(fr.targets, tg)
+	if ld != nil {
+		for _, lm := range ld.Lemmas {
+			// a proved lemma instantiated at the head of the iteration: its requires are
+			// obligations here, its ensures become facts
+			hs := b
+			if i := strings.Index(lm, "==>"); i >= 0 {
+				// guarded instance: cond ==> lemma(...)
+				g, err := c.evalDirective(b, strings.TrimSpace(lm[:i]), dirPos)
+				if err != nil {
+					c.prog.errors = append(c.prog.errors, fmt.Sprintf("CONTRACT-STALE %s loop %d lemma %q: %v", fr.fi.Name, ord, lm, err))
+					continue
+				}
+				hs = b.clone()
+				hs.pc = mkAnd(b.pc, g)
+				lm = strings.TrimSpace(lm[i+3:])
+			}
+			if e, err := c.prog.checkExprAt(fr.fi.Pkg, dirPos, lm); err != nil {
+				c.prog.errors = append(c.prog.errors, fmt.Sprintf("CONTRACT-STALE %s loop %d lemma %q: %v", fr.fi.Name, ord, lm, err))
+			} else if call, ok := e.(*ast.CallExpr); ok {
+				c.ghost++
+				c.mathInts++
+				c.allowLemma = true
+				c.evalCall(hs, call)
+				c.allowLemma = false
+				c.mathInts--
+				c.ghost--
+			}
+		}
+	}
 	body(b)
 	all := append([]*State{b}, tg.continues...)
+	if ld != nil && ld.Split {
+		// one set of step obligations per path through the body (fall-through and each
+		// continue), instead of one over the merged state: smaller queries without ite-merged heaps
+		fr.targets = fr.targets[:len(fr.targets)-1]
+		pn := 0
+		for _, p := range all {
+			if p.dead() {
+				continue
+			}
+			pn++
+			post(p)
+			for _, inv := range invs {
+				t, err := c.evalDirective(p, inv, dirPos)
+				if err != nil {
+					continue
+				}
+				c.addObl("invariant-step", fmt.Sprintf("loop %d path %d: %s", ord, pn, inv), loopPos, p.pc, t)
+			}
+			if decr0 != nil {
+				d, err := c.evalDirective(p, decr, dirPos)
+				if err == nil {
+					it := types.Typ[types.Int]
+					c.addObl("decreases", fmt.Sprintf("loop %d path %d: %s", ord, pn, decr), loopPos, p.pc,
+						mkAnd(c.cmp(token.GEQ, decr0, c.idxLit(0), it), c.cmp(token.LSS, d, decr0, it)))
+				}
+			}
+		}
+		outs := append([]*State{exit}, tg.breaks...)
+		st.set(c.mergeAll(outs))
+		return
+	}
 	b2 := c.mergeAll(all)
 	if !b2.dead() {
 		post(b2)
@@ -1287,8 +1347,15 @@ func (c *VC) execRange(st *State, s *ast.RangeStmt, label string) {
 		}
 	}
 	// implicit invariant 0 <= idx <= n is added to user invariants
-	if idxObj != nil {
-		c.afterHavoc = func(h *State) { h.env[idxObj] = h.env[hidden] }
+	c.afterHavoc = func(h *State) {
+		if idxObj != nil {
+			h.env[idxObj] = h.env[hidden]
+		}
+		// the hidden index satisfies 0 <= i <= n (assumed at the loop head below): index
+		// arithmetic on it cannot wrap
+		if hv := h.env[hidden]; c.mode == ModeInt && hv != nil && len(hv.Args) == 0 && hv.Val == nil {
+			c.varBounds[hv.Op] = interval{bigInt(0), pow2(maxLenBits)}
+		}
 	}
 	c.loopCutWithImplicit(st, tg, ld, ord, ef, pos, s.Pos(),
 		func(b *State) *Term {
